@@ -5,6 +5,7 @@ import (
 	"errors"
 	"fmt"
 	"math"
+	"os"
 	"sort"
 	"strings"
 
@@ -88,6 +89,9 @@ type Violation struct {
 func (v *Violation) Error() string {
 	return fmt.Sprintf("step %d [%s]: %s", v.Step, facetNames[v.Facet], v.Msg)
 }
+
+// Debug enables tracing of events and loader calls (VERIF_TRACE=1).
+var Debug = os.Getenv("VERIF_TRACE") != ""
 
 // ErrAbort means the case stopped on a facet that is not judged.
 var ErrAbort = errors.New("aborted: disagreement on a facet not judged by this property")
@@ -460,6 +464,9 @@ func (r *Runner) noteTotal() {
 
 func (r *Runner) reconcile() error {
 	at, as := r.Env.TakeEvents()
+	if Debug && (len(at) > 0 || len(as) > 0) {
+		fmt.Printf("  step %d %s: atomic=%v async=%v\n", r.step, r.cur.Op, at, as)
+	}
 	for _, ev := range at {
 		if r.consumedAtomic[ev.Val] {
 			delete(r.consumedAtomic, ev.Val)
@@ -797,6 +804,10 @@ func (r *Runner) applyLoadResult(k int, val int, err error, notFound bool, isRef
 	switch {
 	case notFound:
 		if cur != nil {
+			if r.autoRemovedStep[k] && !r.pendingEventFor(cur.Val) {
+				// the call was dropped when the key's previous value was evicted mid-step (see below): nothing is removed
+				return nil
+			}
 			r.modelDelete(k, otter.CauseInvalidation)
 		}
 	case err != nil:
@@ -845,6 +856,9 @@ func (r *Runner) Step(i int, a *Action) (err error) {
 	r.autoRemovedStep = map[int]bool{}
 	r.St.Ops++
 	r.St.Kinds = append(r.St.Kinds, a.Op)
+	if Debug {
+		fmt.Printf("step %d %+v now=%d model=%s\n", i, *a, r.now(), r.dumpModel())
+	}
 	c := r.Env.C
 	k := 0
 	if r.Cfg.Keys > 0 {
@@ -1354,6 +1368,14 @@ func (r *Runner) sortedKeys() []int {
 	}
 	sort.Ints(ks)
 	return ks
+}
+
+func (r *Runner) dumpModel() string {
+	var b strings.Builder
+	for _, k := range r.sortedKeys() {
+		fmt.Fprintf(&b, "%d:%s ", k, r.descr(r.M[k]))
+	}
+	return b.String()
 }
 
 func (r *Runner) descr(e *MEntry) string {
